@@ -409,3 +409,51 @@ def show(e, depth=0):
     if k == 'agg':
         return '%s{%s}' % (e[2].split('::')[-1] if e[2] else e[1], ', '.join('%s: %s' % (n, show(c, depth + 1)) for n, c in e[3]))
     return '⊤'
+
+
+def eqv(x, y):
+    """structural equality that ignores at which call site (block) a pure call result was produced"""
+    if x[0] != y[0]:
+        return False
+    k = x[0]
+    if k == 'call':
+        return strip_generics(x[1]) == strip_generics(y[1]) and len(x[2]) == len(y[2]) and all(eqv(p, q) for p, q in zip(x[2], y[2]))
+    if k in ('field', 'variant'):
+        return x[2] == y[2] and eqv(x[1], y[1])
+    if k == 'index':
+        return eqv(x[1], y[1]) and eqv(x[2], y[2])
+    if k in ('slice', 'len', 'cast'):
+        return eqv(x[1], y[1])
+    if k == 'discr':
+        return eqv(x[1], y[1])
+    if k == 'un':
+        return x[1] == y[1] and eqv(x[2], y[2])
+    if k == 'bin':
+        return x[1] == y[1] and eqv(x[2], y[2]) and eqv(x[3], y[3])
+    if k == 'agg':
+        return x[1] == y[1] and x[2] == y[2] and len(x[3]) == len(y[3]) and all(n1 == n2 and eqv(c1, c2) for (n1, c1), (n2, c2) in zip(x[3], y[3]))
+    return x == y
+
+
+def const_eval(e):
+    """integer value of a constant expression (literals, size_of, + - * / << >> & |), or None"""
+    k = e[0]
+    if k == 'const':
+        return e[1] if isinstance(e[1], int) else None
+    if k == 'sizeof':
+        return e[2]
+    if k == 'cast':
+        return const_eval(e[1])
+    if k == 'bin':
+        a, b = const_eval(e[2]), const_eval(e[3])
+        if a is None or b is None:
+            return None
+        op = e[1].rstrip('O') if e[1] in ('AddO', 'SubO', 'MulO') else e[1]
+        try:
+            return {'Add': a + b, 'Sub': a - b, 'Mul': a * b, 'Div': a // b if b else None, 'Shl': a << b, 'Shr': a >> b,
+                    'BitAnd': a & b, 'BitOr': a | b, 'Rem': a % b if b else None}.get(op)
+        except Exception:
+            return None
+    if k == 'field' and e[2] == '0' and e[1][0] == 'bin':
+        return const_eval(e[1])
+    return None
